@@ -26,8 +26,9 @@ def main():
     ap.add_argument("--props", default="")
     ap.add_argument("--tier", default="quick")
     ap.add_argument("--skip-suite", action="store_true")
+    ap.add_argument("--wt", default="")
     a = ap.parse_args()
-    wt = "/tmp/wt-" + a.id
+    wt = a.wt or ("/tmp/wt-" + a.id)
     dest = "/verif/seeded/" + a.id + (("-" + a.name) if a.name else "")
     os.makedirs(dest, exist_ok=True)
     # 1. extract
